@@ -10,6 +10,7 @@ from vlib import cfgunit, configrun, gen_deleg, gen_envelope as GE, gen_json as 
     ref_schema, ref_verify as RV
 from vlib.ref_canon import canon
 from vlib.runner import Unit, Violation
+from vlib import clicheck as _clicheck
 from vlib import threaded as _threaded
 from vlib import interfere as _interfere, interrupt as _interrupt
 
@@ -237,4 +238,6 @@ UNITS = [
     _interfere.unit_after(PROPERTY, 'type_binding', quick=150, thorough=6000),
     _interrupt.unit_interrupted(PROPERTY, 'type_binding', quick=12, thorough=300, max_points=50, shards_quick=12),
     _threaded.unit_threads(PROPERTY),
+    _clicheck.unit_cli(),
+    cfgunit.unit_under_clocks(PROPERTY, 'type_binding'),
 ]
